@@ -330,7 +330,66 @@ fn c04_graph(prop: &'static str, case: &GCase, g: &GS, d: &Dense, weighted: bool
             return false;
         }
     }
+    // every source towards one target at once: the target's entry of each source must be the
+    // full answer for that pair
+    if n > 0 && !heavy {
+        for _ in 0..2 {
+            let t = rng.below(n);
+            let tn = d.names[t].clone();
+            for (func, r) in [
+                ("all_pairs(target)", guard("dijkstra::all_pairs", || dijkstra::all_pairs(g, weighted, Some(tn.clone()), None, !all_paths, true))),
+                ("multi_source(target)", guard("dijkstra::multi_source", || dijkstra::multi_source(g, weighted, d.names.clone(), Some(tn.clone()), None, !all_paths, true))),
+            ] {
+                ctx::eval(1);
+                match r {
+                    Err(c) => pc.fail(func, &c.class(), c.json()),
+                    Ok(Err(e)) => pc.fail(func, &format!("error:{}", err_name(&e.kind)), json!({"target": tn})),
+                    Ok(Ok(mm)) => {
+                        ctx::count("reach:all-sources-towards-one-target");
+                        for s in 0..n {
+                            let dist = oracle::sssp(d, s, weighted);
+                            let entry = mm.get(&d.names[s]).and_then(|row| row.get(&tn));
+                            pc.check_target_entry(func, s, t, &dist, entry);
+                            if pc.failed {
+                                return false;
+                            }
+                        }
+                    }
+                }
+            }
+        }
+    }
     !pc.failed
+}
+
+/// The same nodes and edges reached through the derived-graph functions (the algorithms must
+/// answer from whatever those functions built).
+fn derived_variants(g: &GS) -> Vec<(GS, &'static str)> {
+    let mut v: Vec<(GS, &'static str)> = vec![];
+    if let Ok(s1) = g.to_single_edges() {
+        v.push((s1, "to_single_edges"));
+    }
+    v.push((g.set_all_edge_weights(2.5), "set_all_edge_weights(2.5)"));
+    if let Ok(r) = g.reverse() {
+        v.push((r, "reverse"));
+    }
+    let names: Vec<String> = g.get_all_nodes().iter().rev().map(|x| x.name.clone()).collect();
+    v.push((g.get_subgraph(&names), "get_subgraph(all nodes)"));
+    v
+}
+
+/// weight class of a derived graph: exact iff every weight is a multiple of 1/8 below 2^40
+fn derived_wclass(d: &Dense, orig: WClass) -> WClass {
+    if !orig.weighted() || d.any_nan {
+        return if d.any_nan { WClass::Unweighted } else { orig };
+    }
+    if d.edges.iter().all(|e| (e.2 * 8.0).fract() == 0.0 && e.2.abs() < 1e12) {
+        WClass::Exact
+    } else if orig.is_exact() {
+        WClass::Generic
+    } else {
+        orig
+    }
 }
 
 fn wclasses_all() -> Vec<WClass> {
@@ -372,6 +431,19 @@ pub fn run_c04(a: &Args) {
         }
         if ok && (!case.wclass.weighted() || rng.chance(1, 3)) {
             c04_graph("C04", &case, &g, &d, false, &mut rng, !big && !huge, !huge);
+        }
+        // the same searches on graphs obtained from this one through the derived-graph functions
+        if ok && idx % 4 == 1 && !huge && !case.wclass.is_ulps() && case.wclass != WClass::ZeroContaining {
+            for (g2, how) in derived_variants(&g) {
+                let d2 = Dense::from_graph(&g2);
+                let mut c2 = case.clone();
+                c2.wclass = derived_wclass(&d2, case.wclass);
+                c2.family = how;
+                ctx::count(&format!("reach:searches-on-graph-from-{}", how.split('(').next().unwrap_or(how)));
+                if !c04_graph("C04", &c2, &g2, &d2, c2.wclass.weighted(), &mut rng, !big, !big || c2.wclass != WClass::Exact) {
+                    break;
+                }
+            }
         }
         let dist = oracle::apsp(&d, false);
         if (0..d.n).any(|s| (0..d.n).any(|t| dist[s][t] == INF)) {
@@ -514,14 +586,26 @@ pub fn run_c05(a: &Args) {
         let mut rng = Rng::new(mix(a.seed ^ 0xC05, idx));
         let case = centrality_case(&mut rng, idx, a.thorough);
         ctx::case_desc(case.json());
-        let g = case.build();
+        let built = case.build();
+        // every fourth small case also runs on the graphs the derived-graph functions make of it
+        let mut variants: Vec<(GS, &'static str)> = vec![];
+        if idx % 4 == 2 && case.n() <= 45 && !case.wclass.is_ulps() {
+            variants = derived_variants(&built);
+        }
+        variants.insert(0, (built, "build"));
+      for (g, how) in variants {
         let d = Dense::from_graph(&g);
         let kind = kind_class(&g);
-        reach_counters(&case, &d);
-        let modes: Vec<bool> = if case.wclass.weighted() { vec![true, false] } else { vec![false] };
+        if how == "build" {
+            reach_counters(&case, &d);
+        } else {
+            ctx::count(&format!("reach:betweenness-on-graph-from-{}", how.split('(').next().unwrap_or(how)));
+        }
+        let wcl = if how == "build" { case.wclass } else { derived_wclass(&d, case.wclass) };
+        let modes: Vec<bool> = if wcl.weighted() && !d.any_nan { vec![true, false] } else { vec![false] };
         let mut had_ties = false;
         for weighted in modes {
-            let tol = tol_for(case.wclass, weighted);
+            let tol = tol_for(wcl, weighted);
             if tol != 0.0 {
                 // only tie-free generic graphs: certify the gap for every source
                 let ok = (0..d.n).all(|s| oracle::min_relative_gap(&d, &oracle::sssp(&d, s, weighted), weighted, tol) > 1e-6);
@@ -531,7 +615,7 @@ pub fn run_c05(a: &Args) {
                 }
             }
             // ulp-apart weight classes: ties are decided exactly as a label-setting search does
-            let ulps = matches!(case.wclass, WClass::UlpsDecimal | WClass::UlpsTiny) && weighted;
+            let ulps = matches!(wcl, WClass::UlpsDecimal | WClass::UlpsTiny) && weighted;
             if ulps && d.n > 45 {
                 continue;
             }
@@ -571,6 +655,9 @@ pub fn run_c05(a: &Args) {
                 }
             }
         }
+        if how != "build" {
+            continue;
+        }
         if had_ties {
             ctx::count("reach:graph-with-tied-shortest-paths");
         }
@@ -581,6 +668,7 @@ pub fn run_c05(a: &Args) {
             ctx::nontrivial(case.hash());
             ctx::sample_tagged(&case.specs.kind_label(), || case.json());
         }
+      }
     }
     // trees whose positive weights span forty orders of magnitude: every pair has at most one
     // path, so the weighted answer is the hop-count answer whatever floating point does to sums
@@ -631,11 +719,23 @@ pub fn run_c06(a: &Args) {
         let mut rng = Rng::new(mix(a.seed ^ 0xC06, idx));
         let case = centrality_case(&mut rng, idx, a.thorough);
         ctx::case_desc(case.json());
-        let g = case.build();
+        let built = case.build();
+        // every fourth small case also runs on the graphs the derived-graph functions make of it
+        let mut variants: Vec<(GS, &'static str)> = vec![];
+        if idx % 4 == 2 && case.n() <= 45 && !case.wclass.is_ulps() {
+            variants = derived_variants(&built);
+        }
+        variants.insert(0, (built, "build"));
+      for (g, how) in variants {
         let d = Dense::from_graph(&g);
         let kind = kind_class(&g);
-        reach_counters(&case, &d);
-        let modes: Vec<bool> = if case.wclass.weighted() { vec![true, false] } else { vec![false] };
+        if how == "build" {
+            reach_counters(&case, &d);
+        } else {
+            ctx::count(&format!("reach:closeness-on-graph-from-{}", how.split('(').next().unwrap_or(how)));
+        }
+        let wcl = if how == "build" { case.wclass } else { derived_wclass(&d, case.wclass) };
+        let modes: Vec<bool> = if wcl.weighted() && !d.any_nan { vec![true, false] } else { vec![false] };
         for weighted in modes {
             for wf in [false, true] {
                 let want = oracle::closeness(&d, weighted, wf);
@@ -654,7 +754,7 @@ pub fn run_c06(a: &Args) {
                                 ctx::violation(
                                     &format!("C06|closeness_centrality|{}|{}", if wf { "wrong-value-wf" } else { "wrong-value" }, kind),
                                     "closeness differs from (r-1)/sum of incoming distances",
-                                    json!({"node": d.names[i], "got": got, "want": want[i], "weighted": weighted, "wf_improved": wf, "graph": case.json()}),
+                                    json!({"node": d.names[i], "got": got, "want": want[i], "weighted": weighted, "wf_improved": wf, "graph": case.json(), "graph_obtained_by": how}),
                                 );
                                 break;
                             }
@@ -662,6 +762,9 @@ pub fn run_c06(a: &Args) {
                     }
                 }
             }
+        }
+        if how != "build" {
+            continue;
         }
         if d.directed {
             let dist = oracle::apsp(&d, false);
@@ -673,6 +776,7 @@ pub fn run_c06(a: &Args) {
             ctx::nontrivial(case.hash());
             ctx::sample_tagged(&case.specs.kind_label(), || case.json());
         }
+      }
     }
 }
 
@@ -781,6 +885,68 @@ fn c08_large(rng: &mut Rng, kinds: &[Specs]) {
                 }
                 Err(c) => {
                     ctx::violation(&format!("C08|single_source|{}|{}", c.class(), kind), "optioned search panicked on a large graph", json!({"options": opt, "caught": c.json()}));
+                    return;
+                }
+            }
+        }
+    }
+    // all sources at once (the parallel branch: n > 20 in a pool of 16 threads) against one
+    // single-source search per source with the same options
+    let t = d.names[rng.below(n)].clone();
+    let cut = {
+        let s0 = d.names[rng.below(n)].clone();
+        match dijkstra::single_source(&g, weighted, s0, None, None, false, false) {
+            Ok(m) => {
+                let mut ds: Vec<f64> = m.values().map(|i| i.distance).collect();
+                ds.sort_by(|a, b| a.partial_cmp(b).unwrap());
+                ds[ds.len() / 2]
+            }
+            Err(_) => 1.0,
+        }
+    };
+    for (target, cutoff, first_only, with_paths) in [
+        (None, Some(cut), false, false),
+        (None, Some(cut), true, false),
+        (None, Some(cut), true, true),
+        (Some(t.clone()), None, false, false),
+        (Some(t.clone()), Some(cut), false, false),
+        (Some(t.clone()), Some(cut), true, true),
+        (None, None, false, false),
+    ] {
+        let opt = json!({"target": target, "cutoff": cutoff, "first_only": first_only, "with_paths": with_paths});
+        let ap = guard("dijkstra::all_pairs", || dijkstra::all_pairs(&g, weighted, target.clone(), cutoff, first_only, with_paths));
+        let ms = guard("dijkstra::multi_source", || dijkstra::multi_source(&g, weighted, d.names.clone(), target.clone(), cutoff, first_only, with_paths));
+        ctx::eval(2);
+        ctx::count("reach:all-sources-with-options-on-a-large-graph");
+        for (func, r) in [("all_pairs", ap), ("multi_source", ms)] {
+            let m = match r {
+                Ok(Ok(m)) => m,
+                Ok(Err(e)) => {
+                    ctx::violation(&format!("C08|{}|error:{}|{}", func, err_name(&e.kind), kind), "optioned all-sources search failed on a large graph", json!({"options": opt, "graph": case.json()}));
+                    return;
+                }
+                Err(c) => {
+                    ctx::violation(&format!("C08|{}|{}|{}", func, c.class(), kind), "optioned all-sources search panicked on a large graph", json!({"options": opt, "caught": c.json()}));
+                    return;
+                }
+            };
+            for s in 0..n {
+                let src = d.names[s].clone();
+                let one = match dijkstra::single_source(&g, weighted, src.clone(), target.clone(), cutoff, first_only, with_paths) {
+                    Ok(x) => x,
+                    Err(_) => continue,
+                };
+                let row = m.get(&src);
+                let same = match row {
+                    None => one.is_empty(),
+                    Some(row) => row.len() == one.len() && one.iter().all(|(k, v)| row.get(k).map_or(false, |w| w.distance.to_bits() == v.distance.to_bits() && (with_paths || w.paths.is_empty()) && (!with_paths || first_only || { let mut a = w.paths.clone(); let mut b = v.paths.clone(); a.sort(); b.sort(); a == b }))),
+                };
+                if !same {
+                    ctx::violation(
+                        &format!("C08|{}|differs-from-single_source-with-the-same-options|{}", func, kind),
+                        "all-sources search with options differs from the single-source search with the same options (large graph, parallel branch)",
+                        json!({"options": opt, "source": src, "entries_all_sources": row.map(|r| r.len()), "entries_single_source": one.len(), "graph": case.json()}),
+                    );
                     return;
                 }
             }
@@ -1043,6 +1209,24 @@ pub fn run_c08(a: &Args) {
                                 fail("single_source", "triangle-inequality", json!({"s": d.names[s], "x": d.names[x], "t": d.names[t], "d_st": st.distance, "d_sx+d_xt": sum}));
                             }
                         }
+                    }
+                }
+            }
+        }
+        // ShortestPathInfo::contains_path_through_node(x) = some listed path has x strictly inside
+        for s in 0..n {
+            for (k, v) in &base[s] {
+                for x in 0..n {
+                    let want = v.paths.iter().any(|p| p.len() > 2 && p[1..p.len() - 1].contains(&d.names[x]));
+                    ctx::eval(1);
+                    match guard("contains_path_through_node", || v.contains_path_through_node(d.names[x].clone())) {
+                        Ok(got) if got == want => {
+                            if want {
+                                ctx::count("reach:contains_path_through_node-true");
+                            }
+                        }
+                        Ok(got) => fail("contains_path_through_node", "wrong-answer", json!({"source": d.names[s], "target": k, "node": d.names[x], "got": got, "paths": v.paths})),
+                        Err(c) => fail("contains_path_through_node", &c.class(), c.json()),
                     }
                 }
             }
